@@ -274,15 +274,24 @@ impl<F: Write + Seek> MiniAllocator<F> {
             let mut header = self.directory.seek_within_header(60)?;
             header.write_le_u32(self.minifat_start_sector)?;
             header.write_le_u32(1)?;
-        } else if self.minifat.len() % minifat_entries_per_sector == 0 {
+        } else {
+            // The MiniFAT chain keeps its sectors when the MiniFAT shrinks,
+            // so only extend it once that capacity is used up.
             let start = self.minifat_start_sector;
-            self.directory.extend_chain(start, SectorInit::Fat)?;
-            let num_minifat_sectors = self
+            let capacity = self
                 .directory
                 .open_chain(start, SectorInit::Fat)?
-                .num_sectors() as u32;
-            let mut header = self.directory.seek_within_header(64)?;
-            header.write_le_u32(num_minifat_sectors)?;
+                .num_sectors()
+                * minifat_entries_per_sector;
+            if self.minifat.len() >= capacity {
+                self.directory.extend_chain(start, SectorInit::Fat)?;
+                let num_minifat_sectors = self
+                    .directory
+                    .open_chain(start, SectorInit::Fat)?
+                    .num_sectors() as u32;
+                let mut header = self.directory.seek_within_header(64)?;
+                header.write_le_u32(num_minifat_sectors)?;
+            }
         }
         // Add a new mini sector to the end of the mini stream and return it.
         let new_mini_sector = self.minifat.len() as u32;
@@ -297,8 +306,6 @@ impl<F: Write + Seek> MiniAllocator<F> {
             self.directory.root_dir_entry().start_sector;
         let mini_stream_len = self.directory.root_dir_entry().stream_len;
         debug_assert_eq!(mini_stream_len % consts::MINI_SECTOR_LEN as u64, 0);
-        let sector_len = self.directory.sector_len();
-
         // If the mini stream doesn't have room for new mini sector, add
         // another regular sector to its chain.
         let new_start_sector =
@@ -306,7 +313,13 @@ impl<F: Write + Seek> MiniAllocator<F> {
                 debug_assert_eq!(mini_stream_len, 0);
                 self.directory.begin_chain(SectorInit::Zero)?
             } else {
-                if mini_stream_len % sector_len as u64 == 0 {
+                // The mini stream's chain keeps its sectors when the mini
+                // stream shrinks, so only extend it once they are used up.
+                let capacity = self
+                    .directory
+                    .open_chain(mini_stream_start_sector, SectorInit::Zero)?
+                    .len();
+                if mini_stream_len >= capacity {
                     self.directory.extend_chain(
                         mini_stream_start_sector,
                         SectorInit::Zero,
